@@ -120,14 +120,14 @@ def run(tier):
         meta[cid] = dict(feat, relation="constant_grid_equals_scalar")
         chk.count(("equal", measure, win, s, a, b))
     # ---- range: final disparities in the requested interval, whatever followed -------------------------------------
-    nrange = 40 if tier == "quick" else 500
+    nrange = 48 if tier == "quick" else 480          # full factorial measure (4) x grid (2) x tail (6), repeated
     for k in range(nrange):
         measure = ["sad", "census", "zncc", "ssd"][k % 4]
         win = 3 if measure in ("census", "zncc") else [1, 3][k % 2]
         s = [1, 2, 4][k % 3]
         a = int(rng.randint(-4, 2))
         b = a + int(rng.randint(0, 4))
-        grid = k % 4 == 3
+        grid = (k // 4) % 2 == 1
         prob = dp.gen_problem(rng, rows=win + 4, cols=win + 9, win=win, s=s, measure=measure, disp=(a, b), grid=grid,
                               vmax=3 if measure != "zncc" else 2, mask_mode=["none", "both"][k % 2])
         glo, ghi = dp.global_interval(prob)
@@ -137,7 +137,7 @@ def run(tier):
                 [("filter", {"filter_method": "median"}), ("refinement", {"refinement_method": "vfit"})],
                 [("refinement", {"refinement_method": "vfit"}), ("validation", {"validation_method": "cross_checking_accurate", "interpolated_disparity": "mc-cnn"})],
                 [("validation", {"validation_method": "cross_checking_accurate", "interpolated_disparity": "sgm"}), ("filter", {"filter_method": "median", "filter_size": 5})],
-                [("refinement", {"refinement_method": "quadratic"}), ("refinement.1", {"refinement_method": "vfit"}), ("filter", {"filter_method": "median"})]][k % 6]
+                [("refinement", {"refinement_method": "quadratic"}), ("refinement.1", {"refinement_method": "vfit"}), ("filter", {"filter_method": "median"})]][(k // 8) % 6]
         has_val = any(nm.startswith("validation") for nm, _ in tail)
         if grid and has_val:
             tail = tail[:1] if not tail[0][0].startswith("validation") else [("refinement", {"refinement_method": "vfit"})]
@@ -145,10 +145,19 @@ def run(tier):
         steps += tail
         cfg = {"pipeline": {nm: dict(c) for nm, c in steps}}
         left, right = dp.make_datasets(prob)
-        feat = {"measure": measure, "subpix": s, "grid": grid, "pipeline": [nm for nm, _ in steps], "interval": [glo, ghi]}
-        chk.count(("range", measure, win, s, glo, ghi, grid, k % 6))
+        feat = {"measure": measure, "subpix": s, "grid": grid, "pipeline": [nm for nm, _ in steps], "interval": [glo, ghi],
+                "machine_ran_multiscale_before": k % 4 == 1}
+        chk.count(("range", measure, win, s, glo, ghi, grid, (k // 8) % 6, k))
+        used = None
         try:
-            r = dp.StepRunner(left, right, cfg)
+            if k % 4 == 1:
+                # notebook-style history: the machine object has just run a MULTISCALE pipeline on other images; nothing of it
+                # (scale factor, number of scales, pyramids) may leak into this single-scale run
+                used = dp.run_pipeline(*dp.make_datasets(dp.gen_problem(rng, rows=14, cols=20, win=1, s=1, measure="sad", disp=(-2, 2))),
+                                       {"pipeline": {"matching_cost": {"matching_cost_method": "sad", "window_size": 1, "subpix": 1},
+                                                     "disparity": {"disparity_method": "wta", "invalid_disparity": -9999},
+                                                     "multiscale": {"multiscale_method": "fixed_zoom_pyramid", "num_scales": 2, "scale_factor": 2}}})[2]
+            r = dp.StepRunner(left, right, cfg, machine=used)
             for nm, c in steps:
                 r.step()
                 kind = nm.split(".")[0]
